@@ -195,7 +195,7 @@ def main(tier, seed):
     nleg.py_spec = lambda c: (holder.__setitem__("ncase", c), "NAMESCOVERED")[1]
     nleg.spec_proj = lambda obs: names_coverage(holder["ncase"], obs)
     legs = [leg, nleg]
-    can_run = r.impl_exe and r.model_exe and not any(k in ("corr-build", "model-build") for k, _, _ in r.build_problems)
+    can_run = r.can_run()
     extra = {}
     if can_run:
         r.replay_findings({l.name: l for l in legs})
